@@ -354,3 +354,54 @@ def rule_eof(ctx, prop):
                               f.loc(), cfg)
         rep.floor("non-Normal paths of format_eof", okc, 1, cfg)
     return rep
+
+
+def rule_sort_guard(ctx, prop, must_block=("Skip", "NotInRange")):
+    rep = Report(prop, "R-SORTGUARD", "a require group is only sorted when every member is FormatNode::Normal (not ignored, "
+                                      "not outside the range)")
+    for cfg, prog in ctx.programs.items():
+        f = prog.fn("stylua_lib", "sort_requires::sort_requires")
+        if not rep.anchor(f is not None, "sort_requires::sort_requires", cfg):
+            continue
+        sortb = [b for b, t in f.calls() if re.search(r"::(sort|sort_by|sort_by_key|sort_by_cached_key|sort_unstable\w*)$", callee(t))]
+        sfnb = [b for b, t in f.calls() if callee(t) == SFN]
+        if not rep.anchor(len(sortb) >= 1 and len(sfnb) >= 1, "sort call and should_format_node call in sort_requires", cfg):
+            continue
+        try:
+            res = Enumerator(f, max_paths=100000, max_visits=1).run()
+        except TooManyPaths:
+            rep.anchor(False, "sort_requires: too many paths", cfg)
+            continue
+        n = 0
+        unchecked = 0
+        bad = set()
+        for st in res:
+            if not any(b in sortb for b, _, _ in st.calls):
+                continue
+            n += 1
+            keys = {f"call:{b}" for b in sfnb}
+            statuses = [c for k, c in st.hist if k in keys]
+            if not statuses:
+                unchecked += 1   # the zero-iteration path of the member loop (an empty group: nothing to move)
+                continue
+            for c in statuses:
+                admitted = {"Skip", "NotInRange", "Normal"}
+                if isinstance(c, str):
+                    admitted = {c}
+                else:
+                    admitted -= set(c[1])
+                for v in must_block:
+                    if v in admitted:
+                        bad.add(v)
+        if n and unchecked == n:
+            bad.add("unchecked")
+        ok = not bad and n > 0
+        rep.inst(f"{f.key} sort-only-if-all-members-Normal", {"paths_reaching_sort": n}, cfg, ok=ok)
+        for v in sorted(bad):
+            rep.violation(f"{f.key} sorts-group-with-{v}-member",
+                          f"sort_requires can reach the sort of a require group although a member's should_format_node "
+                          f"status is {v}: " + ("an ignored statement is moved" if v == "Skip" else
+                                                "statements outside the formatting range are reordered" if v == "NotInRange"
+                                                else "the members were never asked"), f.loc(), cfg)
+        rep.floor("paths reaching the require sort", n, 1, cfg)
+    return rep
